@@ -6,6 +6,8 @@ en::Recorder R;
 int g_sink = 0;
 int Cnt::copies = 0;
 int Cnt::moves = 0;
+int Cnt2::copies = 0;
+int Cnt2::moves = 0;
 void c09_all_chunks(bool all_arities);
 extern const long c09_generated_functions;
 
